@@ -138,6 +138,14 @@ def symbolic_circuits(draw, tier, allow_mixed=True, exprs=EXPRS,
         elif kind == "named":
             b, off = {"k": "g", "g": draw(st.sampled_from(["H", "X", "S"]))},\
                 draw(st.sampled_from(qs))
+        elif kind in ("scalar", "mscalar") and draw(st.integers(0, 3)) == 0:
+            # a constant among symbolic boxes (number or sympy number)
+            value = draw(st.sampled_from([0.5, -1, 2, "0.5", "-1", "3"]))
+            b, off = {"k": "g", "g": "scalar",
+                      "a": [value, 0] if kind == "mscalar" or isinstance(
+                          value, str) else [value, draw(st.integers(-1, 1))],
+                      "mixed": kind == "mscalar"},\
+                draw(st.integers(0, len(scan)))
         elif kind == "scalar":
             b, off = {"k": "g", "g": "scalar", "a": [draw(st.sampled_from(
                 exprs + ["I*x", "x + I*y"])), 0], "mixed": False},\
